@@ -4,7 +4,7 @@ from __future__ import annotations
 import ast
 from fractions import Fraction
 
-from ..astu import (U, dotted, walk_shallow, fold, NotLiteral, fold_module_tables, linform, monomial,
+from ..astu import (has, U, dotted, walk_shallow, fold, NotLiteral, fold_module_tables, linform, monomial,
                     mono_str, call_name, calls_in, _num)
 from ..core import AnalysisError, Mutant, Rule, Twin
 from ..idioms import for_loops, target_names
@@ -199,6 +199,24 @@ def r3_mass_formula(ctx):
             ctx.violation(anchor, "unclassified-term", "mass update `%s` is not under a `k == 0` test" % U(s), node=s)
     if not (el_ok or any(x[0] is not None and x[3] is not None for x in cs)):
         raise AnalysisError("mass_from_composition: no classified mass update found")
+    n_el = sum(1 for cond, s_, sign, val in cs if val is not None and cond is not None and sign > 0)
+    n_ch = sum(1 for cond, s_, sign, val in cs if val is not None and cond is not None and sign < 0)
+    ctx.check(n_el >= 1 and n_ch >= 1, anchor, "both-terms-present", "both the element term (+) and the electron term (-) must be accumulated; found %d element / %d electron updates" % (n_el, n_ch), node=lp)
+    # Substance.mass: stored mass wins, else computed whenever a composition exists
+    sm_ = ctx.func(CHEM, "Substance.mass")
+    ctx.check(has(sm_, "try: return self.data['mass'] except KeyError: if self.composition is not None: return mass_from_composition(self.composition)"), CHEM + ":Substance.mass",
+              "stored-else-computed", "a stored mass is returned as is; otherwise the mass is computed when there is a composition", node=sm_)
+    mm_ = ctx.func(CHEM, "Substance.molar_mass")
+    from ..idioms import none_default
+    d_ = none_default(mm_, "units")
+    ctx.check(d_ is not None and U(d_) == "default_units", CHEM + ":Substance.molar_mass", "given-units-used", "a given units module is used; the default only when None", node=mm_)
+    ch_ = ctx.func(CHEM, "Substance.charge")
+    ctx.check(has(ch_, "return self.composition.get(0, 0)"), CHEM + ":Substance.charge", "charge=composition[0]-or-0", "the charge is composition[0], 0 when absent", node=ch_)
+    mf_ = ctx.func(CHEM, "mass_fractions")
+    ctx.check(has(mf_, "if isinstance(stoichiometries, set): stoichiometries = {k: 1 for k in stoichiometries}"), CHEM + ":mass_fractions", "set->unit-coefficients", "a set of species means coefficient 1 each", node=mf_)
+    d_ = none_default(mf_, "substances")
+    ctx.check(d_ is not None and has(d_, "OrderedDict([(k, substance_factory(k)) for k in stoichiometries])", scope=mf_), CHEM + ":mass_fractions", "given-substances-used",
+              "given substances are used; the default builds them from the keys", node=mf_)
 
     # Substance.mass falls back on its own composition
     sm = ctx.func(CHEM, "Substance.mass")
